@@ -38,6 +38,29 @@ CLAIMS = {
          "Trusted: Lean kernel; the reading of the Go specification in goBinInt/goConstBin/goIntToken; tools/extract.py regexes; harness program templates. "
          "Known findings: operators on all-literal operands become Go constant expressions (overflow / zero divisor rejected by the Go compiler).",
     technique="Lean 4 proof (induction over digit strings; BitVec/Int lemmas; decide over regenerated tables) + translator + differential correspondence + spec oracle"),
+ "C11": dict(
+    category="proof",
+    text="Lean theorems over a model of the Pratt loop (expr_bp/atom/arg_list, with the binding-power tables regenerated from "
+         "crates/parser/src/expr.rs on every run) and of lower_expr_with_args/apply_trailing_args: bp_levels (the table realises the "
+         "documented order prefix > * / > + - > comparisons > equality > && > ||, every infix l < r; it also states that the call power is "
+         "below the prefix power, which is why lowering has to re-associate); parse_print_cst (for EVERY tree the model parser turns the "
+         "minimal-parentheses printing into the CST described by the tree's spine); parse_print (for every well-formed tree over "
+         "identifiers and integer literals with all 12 binary operators, both prefix operators, calls of any arity, field access and tuple "
+         "projection: parse (printMin t) = t; well-formed only excludes an integer literal as receiver of a postfix operation, witnessed by "
+         "literal_receiver_rejected); left_assoc; string literals: escape_accepted / decode_escape (every string has a spelling the lexer "
+         "regex accepts and lowering decodes it back), decode_plain, escape_table, multiline_fidelity. Tied to the Rust by a differential "
+         "run: ~29 000 trees (all operator pairs and triples exhaustively, random larger trees, trees with redundant parentheses) are printed "
+         "by the model, rendered with canonical blanks / random trivia and comments / glued, parsed by the real parse_ast_file, and the dumped "
+         "ast::Expr must equal both the original tree (property oracle) and the model's parse (tie); ~390 literal spellings (every integer "
+         "suffix, floats, every escape, multi-line strings) are compiled by the whole pipeline and the EPrim reaching Core must be the denoted "
+         "value (oracle) and equal the model's decoding (tie).",
+    design_ref="§5 C11, §C11 — as built",
+    note="Proved: the theorems above about the Lean model. Validated only (differential, not proved): that the model equals the Rust parser "
+         "and lowering; integer/float literal values (no Lean theorem: the value is computed by Rust's str::parse, the harness compares with "
+         "an independently computed expectation); items, patterns and types are not in the tree generator (operator expressions only). "
+         "Trusted: Lean kernel, tools/extract.py regexes, harness AST dump and trivia insertion, the real lexer (C12) for token boundaries.",
+    technique="Lean 4 proof (structural induction over trees via a spine decomposition of the Pratt CST) + translator for the "
+              "binding-power table + differential correspondence with parse_ast_file and the whole pipeline"),
  "C15": dict(
     category="proof",
     text="Lean theorems over a state machine of the artefact protocol (sources, .interface and .core files, ops edit/check/build/link/"
